@@ -342,4 +342,121 @@ theorem verifyMessageAt_ok (P : Prims) (k : VKey) (sigs : List MsgSig) (chunks :
         rw [hp]
         simpa [Except.map] using h
 
+/-! ## pairing of One-Pass headers and trailing signatures -/
+
+/-- number of heads before position `i` that take a trailing signature -/
+def popsBefore (hk : Byte → Bool) (heads : List MsgHead) (i : Nat) : Nat :=
+  ((heads.take i).filter (MsgHead.pops hk)).length
+
+theorem pairHeads_onePass (hk : Byte → Bool) : ∀ (heads : List MsgHead) (rs : List Sig) (l : List (Option MsgSig)),
+    pairHeads hk heads rs = some l → ∀ (i : Nat) (o : Ops), heads[i]? = some (.onePass o) → hk o.hash = true →
+      ∃ s, rs[popsBefore hk heads i]? = some s ∧ l[i]? = some (some { ops := some o, sig := s }) := by
+  intro heads
+  induction heads with
+  | nil => intro rs l _ i o hi; simp at hi
+  | cons h t ih =>
+    intro rs l hl i o hi ho
+    cases h with
+    | prefixed s0 =>
+      simp only [pairHeads, Option.map_eq_some_iff] at hl
+      obtain ⟨l', hl', rfl⟩ := hl
+      cases i with
+      | zero => simp at hi
+      | succ j =>
+        simp only [List.getElem?_cons_succ] at hi ⊢
+        obtain ⟨s, hs, hr⟩ := ih rs l' hl' j o hi ho
+        refine ⟨s, ?_, hr⟩
+        simpa [popsBefore, MsgHead.pops] using hs
+    | onePass o0 =>
+      simp only [pairHeads] at hl
+      by_cases hk0 : hk o0.hash = true
+      · simp only [hk0, Bool.not_true, Bool.false_eq_true, if_false] at hl
+        cases rs with
+        | nil => simp at hl
+        | cons s0 rs' =>
+          simp only [Option.map_eq_some_iff] at hl
+          obtain ⟨l', hl', rfl⟩ := hl
+          cases i with
+          | zero =>
+            simp only [List.getElem?_cons_zero, Option.some.injEq, MsgHead.onePass.injEq] at hi
+            subst hi
+            exact ⟨s0, by simp [popsBefore], by simp⟩
+          | succ j =>
+            simp only [List.getElem?_cons_succ] at hi ⊢
+            obtain ⟨s, hs, hr⟩ := ih rs' l' hl' j o hi ho
+            refine ⟨s, ?_, hr⟩
+            simpa [popsBefore, MsgHead.pops, hk0] using hs
+      · have hk0' : hk o0.hash = false := by simpa using hk0
+        simp only [hk0', Bool.not_false, if_true, Option.map_eq_some_iff] at hl
+        obtain ⟨l', hl', rfl⟩ := hl
+        cases i with
+        | zero =>
+          simp only [List.getElem?_cons_zero, Option.some.injEq, MsgHead.onePass.injEq] at hi
+          subst hi
+          rw [hk0'] at ho
+          cases ho
+        | succ j =>
+          simp only [List.getElem?_cons_succ] at hi ⊢
+          obtain ⟨s, hs, hr⟩ := ih rs l' hl' j o hi ho
+          refine ⟨s, ?_, hr⟩
+          simpa [popsBefore, MsgHead.pops, hk0'] using hs
+
+/-- **positional pairing**: in a message whose `n` One-Pass headers all have a supported hash
+algorithm, the header that is the `j`-th One-Pass packet (`j` = number of One-Pass packets before
+it) is paired with the trailing signature at wire position `n - 1 - j` - and with no other,
+whatever the other trailing signatures look like -/
+theorem pairMessage_positional (hk : Byte → Bool) (heads : List MsgHead) (trailing : List Sig)
+    (l : List (Option MsgSig)) (h : pairMessage hk heads trailing = some l)
+    (i : Nat) (o : Ops) (hi : heads[i]? = some (.onePass o)) (ho : hk o.hash = true) :
+    ∃ s, (trailing.take (nOnePass heads))[nOnePass heads - 1 - popsBefore hk heads i]? = some s ∧
+      l[i]? = some (some { ops := some o, sig := s }) := by
+  unfold pairMessage at h
+  split at h
+  · cases h
+  · rename_i hlen
+    obtain ⟨s, hs, hr⟩ := pairHeads_onePass hk heads _ l h i o hi ho
+    refine ⟨s, ?_, hr⟩
+    have hn : (trailing.take (nOnePass heads)).length = nOnePass heads := by
+      simp only [List.length_take]; omega
+    have hlt : popsBefore hk heads i < (trailing.take (nOnePass heads)).reverse.length :=
+      (List.getElem?_eq_some_iff.1 hs).1
+    rw [List.length_reverse] at hlt
+    rw [List.getElem?_reverse hlt, hn] at hs
+    exact hs
+/-- a One-Pass header whose POSITIONAL trailing signature does not match it never yields a successful
+verification at its index - even if another trailing signature of the message would match it -/
+theorem misplaced_trailer_never_ok (P : Prims) (k : VKey) (heads : List MsgHead) (trailing : List Sig)
+    (chunks : List Bytes) (i : Nat) (o : Ops) (t : Sig)
+    (hi : heads[i]? = some (.onePass o)) (ho : P.hashKnown o.hash = true)
+    (ht : (trailing.take (nOnePass heads))[nOnePass heads - 1 - popsBefore P.hashKnown heads i]? = some t)
+    (hm : opsMatches o t = false) :
+    verifyMessageWire P k heads trailing chunks i ≠ .ok := by
+  intro h
+  unfold verifyMessageWire at h
+  cases hc : heads.findSome? (headConstructionError P.hashKnown) with
+  | some g => simp [hc] at h
+  | none =>
+    simp only [hc] at h
+    cases hp : pairMessage P.hashKnown heads trailing with
+    | none => simp [hp] at h
+    | some entries =>
+      simp only [hp] at h
+      obtain ⟨s, hs, he⟩ := pairMessage_positional P.hashKnown heads trailing entries hp i o hi ho
+      rw [ht] at hs
+      cases hs
+      split at h
+      · cases h
+      · rename_i slots hcs
+        cases hx : slots[i]? with
+        | none => simp [hx] at h
+        | some x =>
+          cases x with
+          | none => simp [hx] at h
+          | some ap =>
+            have := collectSlots_get _ slots hcs i (some ap) hx
+            simp only [List.getElem?_map, he, Option.map_some, Option.some.injEq] at this
+            rcases ops_mismatch_slot P.hashKnown o t chunks hm with h1 | ⟨g, h1⟩
+            · rw [h1] at this; cases this
+            · rw [h1] at this; cases this
+
 end Rpgp.Sound
